@@ -292,6 +292,33 @@ fn body(mode: &str, n: usize, shape: &str, stack: usize) {
                 }
             }
         }
+        "twins" => {
+            // the same game replayed / restored a second time, independently allocated: comparing the two states, hashing
+            // them and looking them up in hash-keyed collections are queries too (a transposition table does exactly this)
+            drop(mid);
+            let t = if mode == "play" { play(n) } else { synthetic(n) };
+            acc += (s == t) as usize + (t == s) as usize + (s != t) as usize;
+            let c = s.clone();
+            acc += (c == s) as usize;
+            let std_hash = |g: &GameState| {
+                use std::hash::{Hash, Hasher};
+                let mut h = std::collections::hash_map::DefaultHasher::new();
+                g.hash(&mut h);
+                h.finish()
+            };
+            acc += (std_hash(&s) == std_hash(&t)) as usize;
+            let mut set: std::collections::HashSet<GameState> = std::collections::HashSet::new();
+            set.insert(s.clone());
+            acc += set.contains(&t) as usize;
+            acc += set.insert(t.clone()) as usize;
+            let mut map: std::collections::HashMap<GameState, usize> = std::collections::HashMap::new();
+            map.insert(t, 1);
+            acc += map.get(&s).copied().unwrap_or(0);
+            drop(map);
+            drop(set);
+            drop(c);
+            drop(s);
+        }
         "other_thread" => {
             drop(mid);
             let h = std::thread::Builder::new().stack_size(stack).spawn(move || {
